@@ -35,12 +35,30 @@ inductive PTy where
   | pointX | pointY                  -- one coordinate of a point property
   | countOrLog                       -- interval count or the keyword `log`
   | alignFlags                       -- number or letters b/e/z per axis
-  | clipAxes (names : List Str)      -- number or axis letters, shown as letters when that is possible
+  | clipAxes                         -- number or axis letters, shown as letters when that is possible
   deriving Repr
 
-/-- the clip value as it is shown: the letters when there are some for it -/
-def showClip (names : List Str) (n : Nat) : Val :=
-  if n < names.length then .str (some (names.getD n [])) else .int n
+/-- the letters of a set of axes given as bit mask (x = 1, y = 2, z = 4), in the order x y z.
+    NOT taken from the getter's print table: this is what a clip text MEANS -/
+def clipText (n : Nat) : Str :=
+  (if n % 2 = 1 then [120] else []) ++ (if n / 2 % 2 = 1 then [121] else []) ++ (if n / 4 % 2 = 1 then [122] else [])
+
+/-- the clip value as it is shown: the axis letters when the mask holds axes only -/
+def showClip (n : Nat) : Val := if n < 8 then .str (some (clipText n)) else .int n
+
+/-- the axes a clip text names (any order, repetition allowed); anything but x, y, z: the extra flag 8 -/
+def clipMask (v : Str) : Nat :=
+  (if v.contains 120 then 1 else 0) + (if v.contains 121 then 2 else 0) + (if v.contains 122 then 4 else 0) +
+  (if v.any (fun c => c != 120 && c != 121 && c != 122) then 8 else 0)
+
+/-- alignment of one axis from its letter: b(egin) 1, e(nd) 2, z(ero) 3, anything else 0 -/
+def alignCode (c : Byte) : Nat :=
+  let l := lower c
+  if l == 98 then 1 else if l == 101 then 2 else if l == 122 then 3 else 0
+
+/-- alignment text: one letter per axis, up to four axes, two bits each, first axis lowest -/
+def alignMask (v : Str) : Nat :=
+  alignCode (v.getD 0 0) + 4 * alignCode (v.getD 1 0) + 16 * alignCode (v.getD 2 0) + 64 * alignCode (v.getD 3 0)
 
 /-- values the text may denote for a property of type `t` whose current value is `old`
     (empty: the text denotes nothing of that type and has to be refused) -/
@@ -70,11 +88,11 @@ def denote (tab : List NamedColor) (t : PTy) (old : Val) (v : Str) : List Val :=
   | .alignFlags =>
     match convScalar 'y' (skipSpaces v) with
     | .val x _ => [x]
-    | _ => [.int (alignLetters v 0 0)]
-  | .clipAxes names =>
+    | _ => [.int (alignMask v)]
+  | .clipAxes =>
     match convScalar 'y' (skipSpaces v) with
-    | .val (.int n) _ => [showClip names n.toNat]
-    | _ => [showClip names (clipLetters v 0)]
+    | .val (.int n) _ => [showClip n.toNat]
+    | _ => [showClip (clipMask v)]
 
 /-- default of a coordinate property inside its point -/
 def resetValue (t : PTy) (old dflt : Val) : Val :=
